@@ -89,6 +89,10 @@ partial def parseGTy : SExp → Option GTy
   | .list (.atom "nmm" :: .atom p :: .atom n :: t :: ms) => do
     if ms.isEmpty then pure (.named (← p.toNat?) (← unesc n) (← parseGTy t))
     else pure (.namedM (← p.toNat?) (← unesc n) (← parseGTy t))
+  -- the same with the methods declared on the pointer: still a declared type with declared methods
+  | .list (.atom "nmp" :: .atom p :: .atom n :: t :: ms) => do
+    if ms.isEmpty then pure (.named (← p.toNat?) (← unesc n) (← parseGTy t))
+    else pure (.namedM (← p.toNat?) (← unesc n) (← parseGTy t))
   | .list (.atom "if" :: ms) => do
     pure (.ifaceM (← (← atomsOf' ms).mapM unesc))
   | .list [.atom "p", t] => (parseGTy t).map .ptr
